@@ -19,6 +19,7 @@ RULE = (
     "affine: MatchedFilter(a*x+b), a in [1e-2,1e2], |b|<=100*a*sigma gives the same responses within 2e-3*max(1,|resp|) "
     "and the same (template,bin) when the top-two gap exceeds the tolerance. boxcar: a noiseless boxcar of a bank width "
     "w<n/2 at s (no circular duplicate, s+w<=n) is recovered as (w,s); position sweep for fixed (n,w) pairs in thorough. "
+    "loc/scale options include 'norm'; the standardised data are recomputed from the estimator functions (x-loc)/scale and compared (1e-5). "
     "Non-trivial = n not FFT-good, or pulse within w of an edge, or kind != boxcar."
 )
 ASSUMPTIONS = [
@@ -65,8 +66,8 @@ def strat_case(draw, tier):
     return {"n": n, "kind": kind, "nbins_max": nbins_max, "spacing": spacing, "pulse": pulse, "pos": pos, "w": w,
             "amp": draw(st.sampled_from([3.0, 8.0, 20.0])), "seed": draw(st.integers(0, 2**31 - 1)),
             "a": draw(st.sampled_from([1e-2, 0.5, 3.0, 100.0, 1.0, 7.25])), "b_sig": draw(st.floats(-100, 100, allow_nan=False)),
-            "loc": draw(st.sampled_from(["median", "median", "mean"])),
-            "scale": draw(st.sampled_from(["iqr", "iqr", "mad", "std", "biweight", "gapper"]))}
+            "loc": draw(st.sampled_from(["median", "median", "mean", "norm"])),
+            "scale": draw(st.sampled_from(["iqr", "iqr", "mad", "std", "biweight", "gapper", "norm"]))}
 
 
 def make_data(case):
@@ -116,6 +117,22 @@ def check_responses(case, ctx):
     except Exception as exc:  # noqa: BLE001
         raise Violation(f"mf:raised:{type(exc).__name__}", f"{ctxt}: {exc!r}") from exc
     z = np.asarray(mf.zscores.data)
+    # "the standardised data": (x - location) / scale for the estimators that were asked for ("norm" = leave that part
+    # alone), computed here from the estimator functions themselves (their correctness is C15's subject)
+    from sigpyproc.core import stats as _stats
+
+    loc_m, scale_m = case.get("loc", "median"), case.get("scale", "iqr")
+    x64 = np.asarray(x, dtype=np.float32).astype(np.float64)
+    loc_ref = 0.0 if loc_m == "norm" else float(np.asarray(_stats.estimate_loc(np.asarray(x, dtype=np.float32), loc_m)))
+    sc_ref = 1.0 if scale_m == "norm" else float(np.asarray(_stats.estimate_scale(np.asarray(x, dtype=np.float32), scale_m)))
+    if sc_ref == 0 or not np.isfinite(sc_ref):
+        sc_ref = 1.0
+    z_ref = (x64 - loc_ref) / sc_ref
+    zerr = np.abs(z.astype(np.float64) - z_ref)
+    ztol = 1e-5 * (np.abs(z_ref) + (abs(loc_ref) + float(np.abs(x64).max())) / abs(sc_ref))
+    if z.shape != (n,) or np.any(zerr > ztol):
+        t = int(np.argmax(zerr - ztol)) if z.shape == (n,) else -1
+        raise Violation("mf:standardisation", f"{ctxt} loc={loc_m} scale={scale_m}: z[{t}]={z[t]!r} but (x-loc)/scale = {z_ref[t]!r} (loc {loc_ref!r}, scale {sc_ref!r})")
     L = good_len(n)
     convs = np.asarray(mf.convs)
     bank = mf.temp_bank
@@ -136,7 +153,7 @@ def check_responses(case, ctx):
             "mf:peak-bin", f"{ctxt}: peak_bin {mf.peak_bin}")
     bi = [i for i, t in enumerate(bank) if t is mf.best_temp]
     require(len(bi) == 1 and float(convs[bi[0], mf.peak_bin]) == float(mf.snr), "mf:best-template", f"{ctxt}")
-    labels = [case["kind"], case["pulse"]]
+    labels = [case["kind"], case["pulse"], f"loc_{loc_m}", f"scale_{scale_m}"]
     if L != n:
         labels.append("n_not_good")
     if L % 2:
@@ -152,6 +169,13 @@ def check_affine(case, ctx):
     a = case["a"]
     sig = float(np.std(x.astype(np.float64)))
     b = case["b_sig"] * a * sig
+    # "norm" switches one half of the standardisation off, and with it the invariance that half provides
+    if case.get("loc") == "norm":
+        b = 0.0
+    if case.get("scale") == "norm":
+        a = 1.0
+    if a == 1.0 and b == 0.0:
+        return Info(False, ("identity_map",))
     y = (np.float64(a) * x.astype(np.float64) + b).astype(np.float32)
     kw = {"temp_kind": case["kind"], "nbins_max": case["nbins_max"], "spacing_factor": case["spacing"],
           "loc_method": case.get("loc", "median"), "scale_method": case.get("scale", "iqr")}
